@@ -26,11 +26,11 @@ def orders(max_rails, reduced=False):
     return out
 
 
-def outcomes(order, allow_rewrite=True):
+def outcomes(order, allow_rewrite=True, with_none=True):
     """effective verdict vectors: positions after a reject are irrelevant (and must not run)"""
     res = []
     # N: the rail's action rejects with None instead of False (`if not $r`); parameterised library rails return a dict
-    kinds = "ARWN" if allow_rewrite else "AR"
+    kinds = ("ARWN" if with_none else "ARW") if allow_rewrite else "AR"
 
     def rec(i, acc):
         if i == len(order):
